@@ -37,9 +37,28 @@ def _patch_solver_timing():
     _SOLVER["patched"] = True
 
 
+_REAL = {"n": 0, "patched": False}
+
+
+def _patch_realization_counter():
+    """Count concretisations of solver variables made while a path is still attached to the search tree
+    (each one turns into value enumeration: a leak of symbolic data into a C boundary or an f-string)."""
+    if _REAL["patched"]:
+        return
+    from crosshair import statespace
+    orig = statespace.StateSpace.find_model_value
+
+    def fmv(self, expr, *a, **kw):
+        if not getattr(self, "is_detached", False):
+            _REAL["n"] += 1
+        return orig(self, expr, *a, **kw)
+    statespace.StateSpace.find_model_value = fmv
+    _REAL["patched"] = True
+
+
 def explore(harness, shard: dict | None = None, *, cpu_budget: float = 30.0, per_path_timeout: float = 20.0,
             max_paths: int = 1_000_000, stop_on_violation: bool = False, allow_reals: bool = True,
-            max_violations: int = 40, seed: int = 0) -> dict:
+            max_violations: int = 40, seed: int = 0, soft_signatures=()) -> dict:
     from crosshair.core import Patched, ExceptionFilter, NoTracing, ResumedTracing, realize
     from crosshair.core_and_libs import standalone_statespace  # noqa: F401  (forces plugin/libimpl registration)
     from crosshair.statespace import (StateSpace, StateSpaceContext, RootNode, CallAnalysis, VerificationStatus)
@@ -49,6 +68,8 @@ def explore(harness, shard: dict | None = None, *, cpu_budget: float = 30.0, per
     from crosshair.options import AnalysisKind
 
     _patch_solver_timing()
+    _patch_realization_counter()
+    real0 = _REAL["n"]
     checks0, solver0 = _SOLVER["checks"], _SOLVER["seconds"]
     t_wall, t_cpu = monotonic(), process_time()
     root = RootNode()
@@ -77,22 +98,27 @@ def explore(harness, shard: dict | None = None, *, cpu_budget: float = 30.0, per
             try:
                 with ExceptionFilter() as efilter, ResumedTracing():
                     sym = ChSym(shard)
+                    sym.soft_signatures = set(soft_signatures)
+                    hard = None
                     try:
                         harness(sym)
                     except Violation as v:
+                        hard = v
+                    found = list(sym.soft) + ([hard] if hard is not None else [])
+                    if found:
                         space.detach_path()
                         w = sym.witness()
-                        n = seen_sigs.get(v.signature, 0)
-                        seen_sigs[v.signature] = n + 1
-                        if n < 3 and len(res["violations"]) < max_violations:
-                            res["violations"].append({"signature": v.signature, "detail": str(v.detail)[:600],
-                                                      "witness": w, "shard": shard or {}})
+                        for v in found:
+                            n = seen_sigs.get(v.signature, 0)
+                            seen_sigs[v.signature] = n + 1
+                            if n < 3 and len(res["violations"]) < max_violations:
+                                res["violations"].append({"signature": v.signature, "detail": str(v.detail)[:600],
+                                                          "witness": w, "shard": shard or {}})
                         if stop_on_violation:
                             breakout = True
-                    else:
-                        if res["sample"] is None and sym.reached:
-                            space.detach_path()
-                            res["sample"] = {"inputs": sym.witness(), "notes": _plain(sym.notes)}
+                    elif res["sample"] is None and sym.reached:
+                        space.detach_path()
+                        res["sample"] = {"inputs": sym.witness(), "notes": _plain(sym.notes)}
                 if efilter.user_exc is not None:
                     exc, stack = efilter.user_exc
                     if len(res["errors"]) < 5:
@@ -127,6 +153,7 @@ def explore(harness, shard: dict | None = None, *, cpu_budget: float = 30.0, per
             break
         if len(res["errors"]) >= 5:
             break
+    res["realizations"] = _REAL["n"] - real0
     res["solver_checks"] = _SOLVER["checks"] - checks0
     res["solver_s"] = round(_SOLVER["seconds"] - solver0, 3)
     res["wall_s"] = round(monotonic() - t_wall, 3)
